@@ -24,7 +24,8 @@ from props import C11
 
 MODULE = "AurelVerif.Props.C12"
 THEOREMS = ["AurelVerif.C12." + t for t in (
-    "cache_refines_source", "cache_history", "save_files_right_iteration", "nearest_exact")]
+    "cache_refines_source", "cache_history", "returned_cells", "returned_cells_one_call", "read_returns",
+    "returned_structure", "save_files_right_iteration", "nearest_exact")]
 LEAN_FILES = ["AurelVerif/Props/C12.lean", "AurelVerif/Lemmas/ReadCache.lean", "AurelVerif/Model/ReadCache.lean",
               "Driver/C12.lean"]
 MAX_REPORTS = 3
@@ -270,7 +271,7 @@ def run(ctx):
     found = 0
     try:
         all_lines, all_reals = [], []
-        nd = ctx.budget(16, 90) + (8 if ctx.broken() else 0)
+        nd = ctx.budget(40, 200) + (8 if ctx.broken() else 0)
         layouts = {}
         for k in range(nd):
             per_proc, grouped = bool(k & 1), bool(k & 2)
@@ -352,8 +353,8 @@ MANIFEST = {
             "'it', save_data by position in data['it']) is tied to aurel.read_data by comparing, after every call of "
             "random histories on generated directories whose data differ at every iteration, the returned dict and "
             "every dataset of every cache file.",
-    "note": "Trusted: Lean kernel + propext/Classical.choice/Quot.sound; the hand-written model (validated on 16 "
-            "quick / 90 thorough directories x 3-8 calls, four layouts, 1-2 levels, 1-3 restarts); the uncached read "
+    "note": "Trusted: Lean kernel + propext/Classical.choice/Quot.sound; the hand-written model (validated on 40 "
+            "quick / 200 thorough directories x 3-8 calls, four layouts, 1-2 levels, 1-3 restarts); the uncached read "
             "as abstract source (C11); lib/etgen.py; h5py. skip_last fixed per history; vars=[] and checkpoints not "
             "covered.",
 }
